@@ -1,6 +1,9 @@
 import Clikit.Drv.Util
+import Clikit.Drv.C09
 import Clikit.Model.History
-/-! Driver entries for C17: `c17.help_protocol`, `c17.styles`, `c17.styles_wf`. -/
+import Clikit.Model.AppState
+/-! Driver entries for C17: `c17.help_protocol`, `c17.styles`, `c17.styles_wf`, and `c17.app_hist`: a history of
+runs of the stateful composed application model (`AppState.runAppS`) on ONE application object. -/
 namespace Clikit.Drv.C17
 open Lean Clikit.Drv Clikit.History
 
@@ -19,8 +22,56 @@ def opOf (j : Json) : R StyleOp :=
     | [r, i, .str v] => return .custom (← asNat r) (← asNat i) v
     | _ => .error "custom: [ref, field, value] expected"
 
+def asArr (j : Json) : R (Array Json) :=
+  match j with
+  | .arr a => .ok a
+  | _ => .error "array expected"
+
+/-- `[name path, null | true | false]` -/
+def rawOf (j : Json) : R (List Str × Option Bool) := do
+  match (← asArr j).toList with
+  | [p, .null] => return ((← (← asArr p).toList.mapM asChars), none)
+  | [p, .bool b] => return ((← (← asArr p).toList.mapM asChars), some b)
+  | _ => .error "raw: [path, null | boolean] expected"
+
+/-- `[name path, parser object number]` -/
+def parserOfJ (j : Json) : R (List Str × Nat) := do
+  match (← asArr j).toList with
+  | [p, k] => return ((← (← asArr p).toList.mapM asChars), (← asNat k))
+  | _ => .error "parsers: [path, number] expected"
+
+open Clikit.AppState in
+/-- the runs of a history on one application object, each answered from the state the previous ones left:
+status, what happened, the command and args selected, the abstract handlers invoked with their args, and the
+leniency setting of every listed command AFTER the run -/
+def histRuns (env : Clikit.App.Env) (cv : Clikit.Parser.Conv) (app : List Clikit.Resolver.Cmd) (hs : Clikit.App.Handlers)
+    (paths : List (List Str)) : Clikit.AppState.AppState → List (List Str) → List Json
+  | _, [] => []
+  | s, l :: rest =>
+    let r := runAppS env cv app hs s l
+    Json.mkObj [
+      ("status", jOpt jNat r.1.status),
+      ("what", C09.jWhat r.1.what),
+      ("selected", jExcept C09.jSel (resolveCommandS cv s app l).1),
+      ("invoked", jList C09.jSel r.1.invoked),
+      ("len", jList (fun (p : List Str) =>
+          Json.arr #[jStrs p, jOpt (fun (b : Bool) => Json.bool b) (lenEntry r.2 p).current]) paths),
+      ("restored", .bool (paths.all fun p => (lenEntry r.2 p).current == (lenEntry r.2 p).configured))]
+      :: histRuns env cv app hs paths r.2 rest
+
 def handle (m : String) (j : Json) : Option (R Json) :=
   match m with
+  | "c17.app_hist" => some do
+      -- the command tree, the leniency settings (`raw`) and the installed parser objects (`parsers`) read from the
+      -- REAL application as configured; every abstract handler returns 0; the error report renders
+      let app ← (← fArr j "commands").toList.mapM C03.cmdOf
+      let lines ← (← fArr j "lines").toList.mapM (fun l => do (← asArr l).toList.mapM asChars)
+      let cv ← C01.convOf j
+      let raw ← (← fArr j "raw").toList.mapM rawOf
+      let parsers ← (← fArr j "parsers").toList.mapM parserOfJ
+      let hs : Clikit.App.Handlers := fun _ _ => .ret Clikit.App.ret0
+      let env : Clikit.App.Env := { debug := false, render := fun _ => true }
+      return Json.arr (histRuns env cv app hs (raw.map (·.1)) (Clikit.AppState.initState raw parsers) lines).toArray
   | "c17.help_protocol" => some do
       let cur ← optBoolOf j "cur"
       let ok ← fBool j "inner_ok"
